@@ -287,61 +287,97 @@ XvEmit(c) ==
 
 -----------------------------------------------------------------------------
 (* PAIR 4a "ball_mig": nearest-point migration (point Db to point Db) through   *)
-(* the ball tree vs exhaustive search.  Sample values are their ranks.  dmax is  *)
-(* [kind, a, b]: "none", "l2" (ellipse with semi-axes a, b; distType 2) or "l1"  *)
-(* (box; distType 1), in doubled units.                                          *)
+(* the ball tree vs exhaustive search, in 2-D and 3-D.  Sample values are their  *)
+(* ranks.  Option space: dmax classes {empty, equal components, unequal          *)
+(* components} x dist_type {1 = box, 2 = ellipsoid}, selections on both Dbs,      *)
+(* generic layouts and "corner" layouts (closest sample refused by dmax while a   *)
+(* farther one is accepted - possible for a box even with equal components).      *)
+\* product of a sequence, and of a sequence without its element d
+ProdSeq(w) == LET F[k \in 0..Len(w)] == IF k = 0 THEN 1 ELSE F[k - 1] * w[k] IN F[Len(w)]
+ProdBut(w, d) == ProdSeq([k \in 1..Len(w) |-> IF k = d THEN 1 ELSE w[k]])
+\* dmax is [kind, w]: kind "none", "l1" (box, dist_type 1: |dx_d| <= w_d for every d) or "l2" (ellipsoid,
+\* dist_type 2: sum (dx_d / w_d)^2 <= 1); w = semi-widths per axis, doubled units.  Any dimension.
+DmLhs(p, t, w) == SumSeq([d \in 1..Len(w) |-> (p[d] - t[d]) * (p[d] - t[d]) * ProdBut([k \in 1..Len(w) |-> w[k] * w[k]], d)])
+DmRhs(w) == ProdSeq([k \in 1..Len(w) |-> w[k] * w[k]])
 LargerThanDmax(p, t, dm) ==
-  LET dx == Abs(p[1] - t[1])  dy == Abs(p[2] - t[2]) IN
   CASE dm.kind = "none" -> FALSE
-    [] dm.kind = "l1" -> dx > dm.a \/ dy > dm.b
-    [] dm.kind = "l2" -> dx * dx * dm.b * dm.b + dy * dy * dm.a * dm.a > dm.a * dm.a * dm.b * dm.b
-\* excluded boundary: a sample (nearly) on the dmax limit
+    [] dm.kind = "l1" -> \E d \in 1..Len(dm.w) : Abs(p[d] - t[d]) > dm.w[d]
+    [] dm.kind = "l2" -> DmLhs(p, t, dm.w) > DmRhs(dm.w)
+\* excluded boundary: a sample on (box) or too near (ellipsoid: within what an offset of 0.002 doubled
+\* units per coordinate can change) the dmax limit
 OnDmaxBoundary(p, t, dm) ==
-  LET dx == Abs(p[1] - t[1])  dy == Abs(p[2] - t[2]) IN
   CASE dm.kind = "none" -> FALSE
-    [] dm.kind = "l1" -> dx = dm.a \/ dy = dm.b
-    [] dm.kind = "l2" -> Abs(dx * dx * dm.b * dm.b + dy * dy * dm.a * dm.a - dm.a * dm.a * dm.b * dm.b) < 12
+    [] dm.kind = "l1" -> \E d \in 1..Len(dm.w) : Abs(p[d] - t[d]) = dm.w[d]
+    [] dm.kind = "l2" ->
+         LET slack == SumSeq([d \in 1..Len(dm.w) |-> (2 * Abs(p[d] - t[d]) + 1) * ProdBut([k \in 1..Len(dm.w) |-> dm.w[k] * dm.w[k]], d)])
+         IN Abs(DmLhs(p, t, dm.w) - DmRhs(dm.w)) * 250 <= slack
+DmaxClass(dm) == IF dm.kind = "none" THEN "empty"
+                 ELSE IF \A d \in 1..Len(dm.w) : dm.w[d] = dm.w[1] THEN "equal" ELSE "unequal"
 \* Reference = exhaustive search: the closest ACTIVE sample among those within dmax; 0 = undefined
 MigRef(c, t) ==
   LET cand == {s \in 1..c.n : c.sel[s] = 1 /\ ~LargerThanDmax(c.pts[s], t, c.dmax)}
   IN IF cand = {} THEN 0 ELSE CHOOSE s \in cand : \A u \in cand : D2(c.pts[s], t) <= D2(c.pts[u], t)
 \* Fast, as it should be: the tree holds the candidates of the reference
 MigFastIntended(c, t) == MigRef(c, t)
-\* Fast, transcription of CalcMigrate::_expandPointToPointBall: the tree is built on ALL samples
-\* (Ball(db1) with useSel = false), the closest one is taken, dmax is tested on it afterwards
+\* Fast, transcription of CalcMigrate::_expandPointToPointBall of the snapshot c5253e67d: the tree is
+\* built on ALL samples (Ball(db1) with useSel = false), the closest one is taken, dmax is tested on it
+\* afterwards.  (Repaired since: tree on the active samples, exhaustive search when the closest is refused.)
 MigFastCode(c, t) ==
   LET s == CHOOSE s \in 1..c.n : \A u \in 1..c.n : D2(c.pts[s], t) <= D2(c.pts[u], t)
   IN IF LargerThanDmax(c.pts[s], t, c.dmax) THEN 0 ELSE s
 \* decided: a single closest sample overall and among the candidates of the reference, nobody on the limit
 MigDecided(c, t) ==
   /\ CutDecided(1..c.n, LAMBDA s : D2(c.pts[s], t), 1)
+  /\ CutDecided({s \in 1..c.n : c.sel[s] = 1}, LAMBDA s : D2(c.pts[s], t), 1)
   /\ CutDecided({s \in 1..c.n : c.sel[s] = 1 /\ ~LargerThanDmax(c.pts[s], t, c.dmax)}, LAMBDA s : D2(c.pts[s], t), 1)
   /\ \A s \in 1..c.n : ~OnDmaxBoundary(c.pts[s], t, c.dmax)
 MigActiveTargets(c) == {i \in 1..Len(c.tgt) : c.tsel[i] = 1}
 MigPromisedAt(c, i) == c.tsel[i] = 0 \/ MigDecided(c, c.tgt[i])
 MigPromised(c) == \E i \in MigActiveTargets(c) : MigDecided(c, c.tgt[i])
-\* where the transcription leaves the definition: the design-level deviations found by TLC
+\* classes of situations (each must be exercised): where the snapshot transcription leaves the definition,
+\* and the "corner" geometry: the closest active sample is refused by dmax while a farther one is accepted
 MigDeviation(c, t) ==
   IF MigFastCode(c, t) = MigRef(c, t) THEN "none"
   ELSE LET s == CHOOSE s \in 1..c.n : \A u \in 1..c.n : D2(c.pts[s], t) <= D2(c.pts[u], t)
        IN IF c.sel[s] = 0 THEN "masked_nearest" ELSE "dmax_nearest_outside"
-MigKeys == {<<n, l>> : n \in {3, 4, 5, 6}, l \in {1, 2}}
+MigCorner(c, t) ==
+  LET act == {s \in 1..c.n : c.sel[s] = 1} IN
+  /\ act # {} /\ MigRef(c, t) # 0
+  /\ LargerThanDmax(c.pts[CHOOSE s \in act : \A u \in act : D2(c.pts[s], t) <= D2(c.pts[u], t)], t, c.dmax)
+\* layouts: the generic ones, and "corner" layouts in which, seen from the target (1,..,1), one sample sits
+\* just beyond the face of a box of half-width 8 along the first axis (closest by Euclid) and another
+\* one sits towards the corner of the box (farther by Euclid, inside the box, outside the ball)
+LayC2 == << <<10, 2>>, <<8, 8>>, <<0, 12>>, <<12, 12>>, <<2, 8>> >>
+LayC3 == << <<10, 2, 2>>, <<8, 8, 8>>, <<0, 12, 0>>, <<12, 12, 12>>, <<8, 2, 10>> >>
+TgtC2 == << <<1, 1>>, <<3, 1>>, <<1, 3>>, <<5, 5>> >>
+TgtC3 == << <<1, 1, 1>>, <<3, 1, 1>>, <<1, 3, 1>>, <<5, 5, 3>> >>
+MigLayouts == [l2a |-> [pts |-> Lay2, tgt |-> Tgt2], l2b |-> [pts |-> Lay2b, tgt |-> Tgt2], c2 |-> [pts |-> LayC2, tgt |-> TgtC2],
+               l3 |-> [pts |-> Lay3, tgt |-> Tgt3 \o << <<3, 5, 2>> >>], c3 |-> [pts |-> LayC3, tgt |-> TgtC3]]
+\* dmax classes {empty, equal components, unequal components} x {box, ellipsoid}
+MigDmax(ndim) ==
+  IF ndim = 2
+  THEN {[kind |-> "none", w |-> <<0, 0>>]}
+       \cup {[kind |-> k, w |-> w] : k \in {"l1", "l2"},
+               w \in {<<3, 3>>, <<4, 4>>, <<5, 5>>, <<6, 6>>, <<8, 8>>, <<9, 9>>,                    \* equal components
+                      <<7, 3>>, <<5, 2>>, <<2, 6>>, <<7, 1>>, <<1, 7>>, <<9, 2>>, <<2, 9>>, <<4, 2>>, <<8, 10>>}}
+  ELSE {[kind |-> "none", w |-> <<0, 0, 0>>]}
+       \cup {[kind |-> k, w |-> w] : k \in {"l1", "l2"},
+               w \in {<<3, 3, 3>>, <<5, 5, 5>>, <<6, 6, 6>>, <<8, 8, 8>>, <<9, 9, 9>>,
+                      <<8, 8, 2>>, <<5, 2, 7>>, <<9, 3, 5>>, <<3, 9, 9>>, <<8, 10, 12>>}}
+MigKeys == {<<n, l>> : n \in {3, 4, 5, 6}, l \in {"l2a", "l2b", "l3"}} \cup {<<n, l>> : n \in {2, 4, 5}, l \in {"c2", "c3"}}
 MigPart(key) ==
-  LET n == key[1]  lay == IF key[2] = 1 THEN Lay2 ELSE Lay2b IN
-  {[pair |-> "ball_mig", n |-> n, pts |-> Prefix(lay, n), sel |-> sel, tgt |-> Tgt2, tsel |-> ts, dmax |-> dm] :
-     sel \in SelMasks(n), ts \in {Ones(4), <<1, 0, 1, 1>>},
-     dm \in {[kind |-> "none", a |-> 0, b |-> 0], [kind |-> "l2", a |-> 5, b |-> 5], [kind |-> "l2", a |-> 3, b |-> 3],
-             [kind |-> "l2", a |-> 7, b |-> 3], [kind |-> "l1", a |-> 3, b |-> 3], [kind |-> "l1", a |-> 5, b |-> 2],
-             [kind |-> "l2", a |-> 2, b |-> 6], [kind |-> "l1", a |-> 7, b |-> 1], [kind |-> "l1", a |-> 1, b |-> 7],
-             [kind |-> "l2", a |-> 9, b |-> 2], [kind |-> "l2", a |-> 2, b |-> 9], [kind |-> "l1", a |-> 4, b |-> 2],
-             [kind |-> "l2", a |-> 4, b |-> 4], [kind |-> "l2", a |-> 6, b |-> 6]}}
+  LET n == key[1]  lay == MigLayouts[key[2]]  ndim == Len(lay.pts[1])  nt == Len(lay.tgt) IN
+  {[pair |-> "ball_mig", n |-> n, pts |-> Prefix(lay.pts, n), sel |-> sel, tgt |-> lay.tgt, tsel |-> ts, dmax |-> dm,
+    layout |-> key[2]] :
+     sel \in SelMasks(n), ts \in {Ones(nt), [i \in 1..nt |-> IF i = 2 THEN 0 ELSE 1]}, dm \in MigDmax(ndim)}
 MigHoldsIntended(c) == \A i \in MigActiveTargets(c) : MigFastIntended(c, c.tgt[i]) = MigRef(c, c.tgt[i])
 MigDeviations(c) == {MigDeviation(c, c.tgt[i]) : i \in {j \in MigActiveTargets(c) : MigDecided(c, c.tgt[j])}} \ {"none"}
 MigEmit(c) ==
-  [pair |-> "ball_mig", ndim |-> 2, pts |-> c.pts, sel |-> c.sel, tgt |-> c.tgt, tsel |-> c.tsel,
-   dmaxkind |-> c.dmax.kind, dmaxa |-> c.dmax.a, dmaxb |-> c.dmax.b,
+  [pair |-> "ball_mig", ndim |-> Len(c.pts[1]), layout |-> c.layout, pts |-> c.pts, sel |-> c.sel, tgt |-> c.tgt, tsel |-> c.tsel,
+   dmaxkind |-> c.dmax.kind, dmax |-> c.dmax.w, dmaxclass |-> DmaxClass(c.dmax),
    expected |-> [i \in 1..Len(c.tgt) |-> IF c.tsel[i] = 0 THEN -1 ELSE MigRef(c, c.tgt[i]) - 1],
    deviation |-> [i \in 1..Len(c.tgt) |-> IF c.tsel[i] = 0 THEN "none" ELSE MigDeviation(c, c.tgt[i])],
+   corner |-> [i \in 1..Len(c.tgt) |-> c.tsel[i] = 1 /\ MigCorner(c, c.tgt[i])],
    decided |-> [i \in 1..Len(c.tgt) |-> MigPromisedAt(c, i)],
    promised |-> MigPromised(c)]
 
